@@ -74,16 +74,34 @@ RefiBad(pfx, c, ps, fkhz) ==
          ELSE {<<pfx \o "refresh interval longer than datasheet by one controller cycle or more", "tREFI", c, m>>}
 
 (* ds: sequence of NMin declared entries; refi: declared refresh interval in ps; o: sequence of NMin + 2 handed values
-   (MinNames order, then tRC, then tREFI). *)
+   (MinNames order, then tRC, then tREFI).  ConvBad is the requirement; Eval computes the same set together with the
+   "tight" flag from one evaluation of the needed clock counts (the trace validator judges ~10^6 records). *)
 ConvBad(pfx, ds, refi, o, n, fkhz) ==
     UNION {MinBad(pfx, MinNames[i], ds[i], o[i], n, fkhz) : i \in 1..NMin}
     \cup MinBad(pfx, "tRC", RcDecl(ds), o[NMin + 1], n, fkhz)
     \cup RefiBad(pfx, o[NMin + 2], refi, fkhz)
 
-\* a record is "tight" when lowering some handed minimum by one cycle (or raising tREFI by one) would break a clause
-Tight(ds, refi, o, n, fkhz) ==
-    \/ \E i \in 1..NMin : ds[i][3] = 1 /\ o[i] >= 0 /\ o[i] = (LET a == MinCyclesNs(ds[i][2], fkhz, n) b == MinCyclesCk(ds[i][1], n) IN IF a > b THEN a ELSE b)
-    \/ o[NMin + 2] >= RefiMax(refi, fkhz)
+NameOf(i) == IF i <= NMin THEN MinNames[i] ELSE "tRC"
+Eval(pfx, ds, refi, o, n, fkhz) ==
+    LET dx == Append(ds, RcDecl(ds))
+        need == [i \in 1..(NMin + 1) |-> IF dx[i][3] = 1 /\ dx[i][2] > 0 THEN NeedTck(dx[i][2], fkhz, n) ELSE 0]
+        rmax == RefiMax(refi, fkhz)
+        One(i) == LET d == dx[i]  c == o[i] IN
+                  IF d[3] = 0 THEN {}
+                  ELSE IF c < 0 THEN {<<pfx \o "declared by the library but no cycle count handed to the controller", NameOf(i), c, 0>>}
+                  ELSE (IF d[2] > 0 /\ HaveTck(c, n) < need[i]
+                        THEN {<<pfx \o "nanoseconds not covered on the least favourable phases", NameOf(i), HaveTck(c, n), need[i]>>} ELSE {})
+                       \cup (IF d[1] > 0 /\ ~SpansCk(c, n, d[1])
+                             THEN {<<pfx \o "datasheet clock count not spanned", NameOf(i), c * n * 1000, d[1]>>} ELSE {})
+        \* lowering the handed minimum by one cycle would break a clause
+        TightAt(i) == dx[i][3] = 1 /\ o[i] >= 0 /\ ((dx[i][2] > 0 /\ HaveTck(o[i] - 1, n) < need[i]) \/ (dx[i][1] > 0 /\ ~SpansCk(o[i] - 1, n, dx[i][1])))
+        c == o[NMin + 2]
+    IN [bad |-> UNION {One(i) : i \in 1..(NMin + 1)}
+                \cup (IF c < 0 THEN {<<pfx \o "no refresh interval handed to the controller", "tREFI", c, 0>>}
+                      ELSE IF c <= rmax THEN {}
+                      ELSE IF c = rmax + 1 THEN {<<pfx \o "refresh interval longer than datasheet by less than one controller cycle (rounded up)", "tREFI", c, rmax>>}
+                      ELSE {<<pfx \o "refresh interval longer than datasheet by one controller cycle or more", "tREFI", c, rmax>>}),
+        tight |-> (c >= rmax) \/ (\E i \in 1..(NMin + 1) : TightAt(i))]
 
 \* ---------------------------------------------------------------------------------------------- SPD decoding
 B(s, i) == s[i + 1]                         \* byte number i (SPD byte numbers start at 0)
@@ -151,6 +169,6 @@ SpdDecl(sp, frm) ==
 (* Clauses of a module built from SPD bytes, against the SPD contents.  tRC is checked twice: against tRAS + tRP of
    the SPD (through ConvBad) and against the SPD's own tRCmin field. *)
 SpdBad(sp, frm, o, n, fkhz) ==
-    ConvBad("SPD: ", SpdDecl(sp, frm), SpdRefi(frm), o, n, fkhz)
+    Eval("SPD: ", SpdDecl(sp, frm), SpdRefi(frm), o, n, fkhz).bad
     \cup MinBad("SPD: ", "tRC(SPD tRCmin field)", <<0, sp.tRC, 1>>, o[NMin + 1], n, fkhz)
 ====
